@@ -25,7 +25,8 @@ ASSUMPTIONS = ["backward-error bound c*max(m,n)*eps*||L||_F*||U||_F with c = 100
 SHARDS = {"quick": 8, "thorough": 16}
 DECIDING = ["P_is_permutation", "L_unit_lower", "multipliers_le_1", "U_upper", "PA_eq_LU", "A_eq_LU_two_output",
             "two_output_L_is_row_permuted", "singular_loud_or_exact"]
-MUST_REACH = ["perm:noninvolutive", "perm:identity", "singular:evaluated"]
+MUST_REACH = ["perm:noninvolutive", "perm:identity", "singular:evaluated", "singular:exact_step:tall:last",
+              "singular:exact_step:square:last", "singular:exact_step:wide:last", "singular:exact_step:tall:first"]
 
 C = 100.0
 
@@ -50,6 +51,16 @@ def cases(tier, seed):
     for k, sc in enumerate(("zero_column", "zero_matrix", "dependent_columns", "zero_1x1", "zero_row", "dependent_rows_wide", "zero_later_column")):
         for rep in range(3 if tier == "quick" else 12):
             out.append({"kind": "singular", "cls": "singular:" + sc, "sing": sc, "idx": rep, "seed": seed})
+    # exact (dyadic) deficiency that first shows at elimination step c, for every c and every shape kind:
+    # the guard has to fire at the first, an interior and the LAST diagonal position of tall, square and wide inputs
+    shapes = [(2, 1), (3, 2), (4, 3), (5, 2), (5, 3), (2, 2), (3, 3), (4, 4), (2, 3), (3, 5), (1, 1), (1, 3), (3, 1), (6, 2)]
+    if tier != "quick":
+        shapes += [(6, 5), (7, 3), (5, 5), (4, 6), (8, 2), (9, 4)]
+    for (m, n) in shapes:
+        for c in range(min(m, n)):
+            for rep in range(1 if tier == "quick" else 3):
+                out.append({"kind": "singular", "cls": "singular:exact_step", "sing": "exact_step", "m": m, "n": n, "c": c,
+                            "idx": rep, "seed": seed})
     return out
 
 
@@ -83,6 +94,36 @@ def _make_LU(rng, m, n, integer=False):
                 v *= (1.0 + rng.random()) / np.linalg.norm(v)
             Uc[i, j] = v
     return refq.qa(Lc), refq.qa(Uc)
+
+
+def _dy_unit(rng, lo, hi):
+    """single-axis quaternion +-2^k e_a with k in [lo, hi]: its inverse and all products with dyadics are exact"""
+    v = np.zeros(4)
+    v[int(rng.integers(0, 4))] = float(rng.choice([-1.0, 1.0])) * 2.0 ** int(rng.integers(lo, hi + 1))
+    return v
+
+
+def _exact_deficient(rng, m, n, c, variant):
+    """A (m x n) whose column c has no non-zero pivot after c exact elimination steps and is generic elsewhere.
+
+    A = Pr^T (L' U' + E) with L' (m x c) unit lower trapezoidal (single-axis dyadic multipliers of modulus <= 1/2),
+    U' (c x n) upper trapezoidal (single-axis dyadic diagonal, dyadic rest) and E non-zero only in rows >= c and
+    columns > c.  All arithmetic of the elimination is exact in binary64, so the pivot column is exactly zero."""
+    Lc = np.zeros((m, c, 4))
+    for i in range(m):
+        for j in range(min(i, c)):
+            Lc[i, j] = _dy_unit(rng, -3, -1)
+        if i < c:
+            Lc[i, i, 0] = 1.0
+    Uc = np.zeros((c, n, 4))
+    for i in range(c):
+        for j in range(i, n):
+            Uc[i, j] = _dy_unit(rng, 0, 1) if j == i else rng.integers(-4, 5, size=4) / 4.0
+    A = refq.fa(refq.matmul(refq.qa(Lc), refq.qa(Uc))).copy() if c else np.zeros((m, n, 4))
+    if variant % 3 != 2:          # variant 2: everything to the right of column c is dependent too (rank c exactly)
+        A[c:, c + 1:] += rng.integers(-4, 5, size=(m - c, n - c - 1, 4)) / 2.0
+    A = A[rng.permutation(m)]
+    return refq.qa(np.ascontiguousarray(A))
 
 
 def judge(ctx, R, A, site, tags=(), expect_pi=None, unique=False):
@@ -248,6 +289,12 @@ def _singular(spec, ctx, R):
         m, n = 3, 5
         A = refq.randq(rng, m, n)
         A[2, :] = refq.randq(rng, 1, 1)[0, 0] * A[0, :]
+    elif sc == "exact_step":
+        A = _exact_deficient(rng, spec["m"], spec["n"], spec["c"], spec["idx"])
+        m, n = A.shape
+        kind = "tall" if m > n else ("square" if m == n else "wide")
+        pos = "last" if spec["c"] == min(m, n) - 1 else ("first" if spec["c"] == 0 else "interior")
+        ctx.hit(f"singular:exact_step:{kind}:{pos}")
     ctx.distinct(sc, A)
     m, n = A.shape
     for mode in (True, False):
@@ -268,7 +315,7 @@ def _singular(spec, ctx, R):
             L, U = res
             lhs = A
         ok_fin = refq.is_finite(L) and refq.is_finite(U)
-        bound = C * max(m, n) * refq.EPS * (refq.fro(L) * refq.fro(U) + refq.fro(A)) + 1e-300
+        bound = (C * max(m, n) * refq.EPS * (refq.fro(L) * refq.fro(U) + refq.fro(A)) + 1e-300) if ok_fin else 0.0
         err = refq.fro(lhs - refq.matmul(L, U)) if ok_fin else float("inf")
         ctx.check("singular_loud_or_exact", err, bound, site=site, detail={"shape": [m, n], "class": sc})
     if spec["idx"] == 0:
